@@ -31,7 +31,7 @@ CHECKS = {
     "C07": ("exploration", "DESIGN.md §5 C07",
             "PBT with an adversarial history-proof builder + dishonest trees (missing / late stale markers) built through the public API",
             "Truncations (with forged absence proofs at every anchor depth), gaps, duplicates, reorderings, substituted values/epochs, omitted/surplus/swapped marker proofs, cross-parameter verification and tombstones under both verifier modes; an accepted proof must equal the model's version list for the parameter; trees with a missing/late stale marker must make history verification of that label fail.",
-            "Structural adversary with the secret key."),
+            "Structural adversary with the secret key. One protocol-level known finding (epoch of a tombstoned version-1 entry is not authenticated under AllowMissingValues) is excluded by its exact shape and counted."),
     "C08": ("exploration", "DESIGN.md §5 C08",
             "bounded-exhaustive enumeration of (epoch, version pair, range) marker-set intersections + random u64 sampling + replay of pairs on real dishonest trees with the real verifiers",
             "All E<=48 (thorough 96), n!=m, admitted ranges are enumerated for history x history and complete-history x lookup; the absent/retired set of one proof must intersect the present/not-retired set of the other; sampled and all failing pairs are replayed on a real tree built by a dishonest server and handed to key_history_verify / lookup_verify.",
@@ -86,7 +86,7 @@ CHECKS = {
             "Cut-off before the label's latest update, as the property states."),
 }
 
-DONE = ["C01", "C02", "C03", "C04", "C05", "C06", "C09", "C10", "C11", "C12", "C13", "C15", "C16", "C17", "C18", "C19", "C20"]
+DONE = ["C01", "C02", "C03", "C04", "C05", "C06", "C07", "C09", "C10", "C11", "C12", "C13", "C15", "C16", "C17", "C18", "C19", "C20"]
 
 NOT_YET = "check under construction in this session (see DESIGN.md §5); not claimed until it runs and is sensitivity-tested"
 
